@@ -9,9 +9,42 @@ pub mod async_std {
     }
     pub mod task {
         use vstd::prelude::*;
+        /// handle of a blocking task.  MODEL (rule R8): `spawn_blocking(|| BODY)` is rewritten to
+        /// `spawned({ BODY })` - the task body runs to completion at the point where it is
+        /// spawned and the handle holds its result; polling the handle yields Pending or that
+        /// result.  What is dropped: the overlap in time between the blocking task and the
+        /// polling task (the state machine is `Busy` for that whole time and only polls).
         #[verifier::external_body]
-        #[verifier::reject_recursive_types(T)]
+        #[verifier::accept_recursive_types(T)]
         pub struct JoinHandle<T> { t: ::std::marker::PhantomData<T> }
+        impl<T> View for JoinHandle<T> { type V = T; uninterp spec fn view(&self) -> T; }
+        #[verifier::external_body]
+        pub fn spawned<T>(t: T) -> (r: JoinHandle<T>) ensures r@ == t { unimplemented!() }
+        // @FLAVOUR !tokio
+        pub type Joined<T> = T;
+        /// `spawn_blocking(..).await`
+        pub fn awaited<T>(t: T) -> (r: T) ensures r == t { t }
+        impl<T> JoinHandle<T> {
+            /// Future::poll of the handle (after R21)
+            #[verifier::external_body]
+            pub fn poll(&mut self, cx: &mut crate::shims::std::task::Context<'_>) -> (r: crate::shims::std::task::Poll<T>)
+                ensures r is Ready ==> r->Ready_0 == old(self)@, final(self)@ == old(self)@
+            { unimplemented!() }
+        }
+        // @ENDFLAVOUR
+        // @FLAVOUR tokio
+        pub struct JoinError { pub e: u8 }
+        impl ::std::fmt::Debug for JoinError { #[verifier::external_body] fn fmt(&self, f: &mut ::std::fmt::Formatter<'_>) -> ::std::fmt::Result { Ok(()) } }
+        /// tokio: a JoinError arises only if the task panicked or was aborted; the blocking
+        /// bodies are verified not to panic and nothing aborts them: ASSUMED always Ok
+        pub fn awaited<T>(t: T) -> (r: Result<T, JoinError>) ensures r == Ok::<T, JoinError>(t) { Ok(t) }
+        impl<T> JoinHandle<T> {
+            #[verifier::external_body]
+            pub fn poll(&mut self, cx: &mut crate::shims::std::task::Context<'_>) -> (r: crate::shims::std::task::Poll<Result<T, JoinError>>)
+                ensures r is Ready ==> r->Ready_0 == Ok::<T, JoinError>(old(self)@), final(self)@ == old(self)@
+            { unimplemented!() }
+        }
+        // @ENDFLAVOUR
     }
 }
 pub mod futures {
@@ -53,7 +86,7 @@ pub mod tokio {
         }
     }
     pub mod task {
-        pub use crate::shims::async_std::task::JoinHandle;
+        pub use crate::shims::async_std::task::{JoinHandle, JoinError};
     }
 }
 pub mod tokio_stream { pub mod wrappers { } }
